@@ -14,6 +14,10 @@ def check(ctx, rep):
     tok.tok_9(ctx, rep)
     tok.tok_5(ctx, rep)
     gr.gr_1_4(ctx, rep, with_follow=False)
+    par.par_13(ctx, rep)      # the engine is iterative: no interpreter frame per reduced rule
+    # a parse that was abandoned half-way (exception, interrupt) must not leave anything behind for the next one
+    from ..rules import eff as _eff
+    _eff.eff_1(ctx, rep, only=[('parso/grammar.py', 'Grammar.parse')], minimum=20)
     rep.assume('Parser.error_recovery dereferences last_leaf (None when the top stack entry is empty) only for DEDENT '
                'tokens; that a DEDENT never arrives on an empty stack entry is a tokenizer invariant, not decided here')
     rep.note('Not decided: absence of every implicit exception; the shape clauses (root has no parent, last child is '
